@@ -24,6 +24,10 @@ SPEC = {
         _borrow('C09', 'C09_ranges', 'p_c09_ranges'), _borrow('C09', 'C09_filter', 'p_c09_filter'), _borrow('C09', 'C09_pending', 'p_c09_pend'),
         _borrow('C08', 'C08_add_0', 'p_c08_add'), _borrow('C08', 'C08_sel', 'p_c08_sel'),
         _borrow('C11', 'C11_commit_hist', 'p_c11_cch'), _borrow('C11', 'C11_exec_hist', 'p_c11_ceh'),
+        # the context handed to the RMN controller by commit Query inherits the caller's deadline / cancellation and is bounded
+        # by RMNSignaturesTimeout (judged by inspecting the context, no wall-clock measurement)
+        {'pkg': 'commit/merkleroot', 'pkgname': 'merkleroot', 'src': 'harness/commit/merkleroot/c13q_test.go', 'test': 'TestVerif_C13_query_ctx',
+         'fakes': True, 'sinks': {'C13_query_ctx': 'sweep_judge'}, 'n': {'quick': 1, 'thorough': 1}},
         {'pkg': 'commit/merkleroot/rmn', 'pkgname': 'rmn', 'src': 'harness/commit/merkleroot/rmn/c06_test.go', 'test': 'TestVerif_C06_sweep',
          'sinks': {'C06_sweep': 'c06_judge'}, 'n': {'quick': 1, 'thorough': 6}},
         {'pkg': 'commit', 'src': 'harness/commit/c13_test.go', 'test': 'TestVerif_C13_commit', 'fakes': True, 'extra_libs': ['vmutate'],
